@@ -451,6 +451,21 @@ func runC04(c *Ctx) {
 						tagStored = true
 					}
 				}
+				// the tag handed to a constructor of the package that stores its parameter as the tags (Acquire(tag))
+				if cl, isCall := in.(*ssa.Call); isCall {
+					if sc := cl.Call.StaticCallee(); sc != nil && len(sc.Blocks) > 0 && PkgOf(sc) == PkgOf(ds) {
+						for i, a := range cl.Call.Args {
+							if sv, isS := ConstString(a); !isS || sv != "discarded" || i >= len(sc.Params) {
+								continue
+							}
+							EachInstr(sc, func(i2 ssa.Instruction) {
+								if v, ok := StoreToField(i2, "Sample", "tags"); ok && v == ssa.Value(sc.Params[i]) {
+									tagStored = true
+								}
+							})
+						}
+					}
+				}
 				kv, _ := constant.Int64Val(keyErrno)
 				if keyErrno != nil && sampleFieldSet(in, func(v ssa.Value) bool { k, isC := ConstInt(v); return isC && k == kv }, func(v ssa.Value) bool { k, isC := ConstInt(v); return isC && k == 777 }, 0) {
 					codeSet = true
@@ -643,7 +658,7 @@ func boolFactsLocal(b *ssa.BasicBlock) []BoolFact {
 // arguments on (SetUserNet(v) -> set(keyErrno, v) -> fields[k] = v).
 func sampleFieldSet(in ssa.Instruction, key, val func(ssa.Value) bool, depth int) bool {
 	if st, ok := in.(*ssa.Store); ok {
-		if ia, ok := st.Addr.(*ssa.IndexAddr); ok && key(ia.Index) && val(st.Val) {
+		if ia, ok := st.Addr.(*ssa.IndexAddr); ok && key(ia.Index) && (val(st.Val) || val(Strip(st.Val))) {
 			if fa, ok := ia.X.(*ssa.FieldAddr); ok {
 				if fv, _ := FieldOf(fa); fv != nil && fv.Name() == "fields" {
 					return true
